@@ -150,7 +150,8 @@ def implied_vol(ctx: Ctx) -> None:
     from pfhedge.nn import BSAmericanBinaryOption, BSEuropeanBinaryOption, BSEuropeanOption, BSLookbackOption
     dtype = torch.float64
     vols = torch.tensor([0.01, 0.05, 0.1, 0.2, 0.35, 0.5, 0.75, 0.95], dtype=dtype)
-    for cls, extra in ((BSEuropeanOption, {}), (BSEuropeanOption, {"call": False}), (BSLookbackOption, {}), (BSAmericanBinaryOption, {})):
+    for cls, extra in ((BSEuropeanOption, {}), (BSEuropeanOption, {"call": False}), (BSLookbackOption, {}), (BSAmericanBinaryOption, {}),
+                       (BSEuropeanBinaryOption, {}), (BSEuropeanBinaryOption, {"call": False})):
         for strike in (0.5, 1.0, 3.0):
             m = cls(strike=strike, **extra)
             for s in (-0.3, -0.05, 0.0, 0.05, 0.3):
@@ -168,6 +169,15 @@ def implied_vol(ctx: Ctx) -> None:
                         # spot and strike, so changes below ~1e3 ulp of that size are cancellation noise
                         noise = 1e3 * torch.finfo(dtype).eps * strike * max(1.0, math.exp(s))
                         usable = (price - plo > noise) & (phi - price > noise)
+                        if cls is BSEuropeanBinaryOption:
+                            # N(d2) is DEcreasing in the volatility in the money (s > 0 for the call) and increasing out of the money only
+                            # while sigma^2 t < -2 s: cases that are not monotone on the whole bracket [0.001, 1] are outside the property
+                            s_eff = s                      # the put is one minus the call: monotone on the bracket exactly when the call is
+                            if s_eff == 0.0 or (s_eff < 0 and -2 * s_eff / t < 1.0):
+                                ctx.skip("implied volatility of a binary: price not monotone in the volatility on the whole bracket", len(vols))
+                                continue
+                            noise = 1e3 * torch.finfo(dtype).eps
+                            usable = ((price - plo).abs() > noise) & ((phi - price).abs() > noise) & (((price - plo) > 0) == ((phi - price) > 0))
                         if cls is BSAmericanBinaryOption:
                             usable &= (lm < 0)                        # at/above the barrier the price is 1 for every volatility
                         if not bool(usable.any()):
